@@ -84,6 +84,8 @@ def rule_wincompose(ctx, prop: str) -> RuleResult:
                 return isinstance(e.slice, ast.Name)  # indexed by a running counter
             if isinstance(e, ast.Call) and isinstance(e.func, ast.Attribute) and e.func.attr == "pop":
                 return True
+            if isinstance(e, ast.Call) and isinstance(e.func, ast.Name) and e.func.id == "next" and len(e.args) == 1:
+                return True  # consumption through an iterator
             return False
 
         # variables bound to a consumed inner coordinate are not the window coordinate
